@@ -19,7 +19,7 @@ from sx.core import ctx
 from sx.terms import DIGIT, LOWER, UPPER, PChar, category_ranges, complement, intersect_ranges, merge_ranges, seg_lookup, stable_other_domain, upper_tables
 
 BOUNDS = {"quick": {"countries": "the 19 computing countries + DE, GB + 8 seeded others with positions + 2 without positions + unknown country", "lengths": "full widths; each component one shorter / one longer (others full); empty branch; combined bank+branch width", "alphabet": "ASCII digits, ASCII letters of either case and every upper-case-stable code point; whitespace, expanding and non-ASCII case-changing code points are covered by Lemma N on clean() only"},
-          "thorough": {"countries": "all", "lengths": "every component 0..width+2 one at a time (others full), combined width, plus 12 seeded triples per country", "alphabet": "as quick"}}
+          "thorough": {"countries": "all", "lengths": "as quick for every country; for the 19 computing countries every component length 0..width+2 (others full) plus 12 seeded triples", "alphabet": "as quick"}}
 STUBS = ["str.zfill incl. sign rule", "as C01"]
 ASSUMPTIONS = ["IT/SM/FI component characters are digits or non-alphanumeric here (letter patterns: C06-N, C09-A)", "a bank code of combined bank+branch width supplied together with a non-empty branch code is outside the claim (the statement does not say which of the two conflicting inputs wins)",
                "whitespace, expanding and non-ASCII case-changing code points inside components: clean() is covered by Lemma N (C01/C04), their images are then ordinary characters of the alphabet used here"]
@@ -61,8 +61,9 @@ def jobs(tier, seed):
         w = widths(cc)
         full = [w["bank_code"], w["account_code"], w["branch_code"]]
         triples = {tuple(full)}
+        every = tier == "thorough" and cc in COMPUTING
         for i, k in enumerate(("bank_code", "account_code", "branch_code")):
-            if tier == "thorough":
+            if every:
                 cand = list(range(0, w[k] + 3))
             else:
                 cand = [max(0, w[k] - 1), w[k] + 1] + ([0] if i == 2 else [])
@@ -74,7 +75,7 @@ def jobs(tier, seed):
                 if i == 0 and n == w["bank_code"] + w["branch_code"] and w["branch_code"]:
                     t[2] = 0  # combined bank code: no separate branch code (see ASSUMPTIONS)
                 triples.add(tuple(t))
-        if tier == "thorough":
+        if every:
             for _ in range(12):
                 triples.add((rnd.randint(0, w["bank_code"] + 2), rnd.randint(0, w["account_code"] + 2), rnd.randint(0, w["branch_code"] + 2)))
         for t in sorted(triples):
